@@ -22,11 +22,13 @@ def cmd(r, k, dur):
     return 'echo "start.%d.%d $(date +%%s%%N)" >> "$TRACE"; %s; echo "end.%d.%d $(date +%%s%%N)" >> "$TRACE"' % (r, k, body, r, k)
 
 
-def task(r, durs, before=None, timeout_ms=0):
+def task(r, durs, before=None, timeout_ms=0, allow=False):
     t = {"name": "t%d" % r, "commands": [cmd(r, k + (1 if before else 0), d) for k, d in enumerate(durs)],
          "before": [cmd(r, 0, before)] if before else [], "ncmds": len(durs) + (1 if before else 0)}
     if timeout_ms:
         t["timeout_ms"] = timeout_ms
+    if allow:
+        t["allow"] = True          # allow_failure forgives exit statuses, not an interruption
     return t
 
 
@@ -53,6 +55,12 @@ def gen_cases(ctx):
         for nc in (2, 3):
             add("cancels-all-waiting-%d-%d" % (k, nc), [task(r, ["noint30", "30"]) for r in range(k)],
                 [{"op": "cancel", "after_ms": 300 + 60 * j} for j in range(nc)] + [{"op": "par", "tasks": list(range(k))}])
+    # tasks with allow_failure in flight: an interrupted task still reports an error and starts nothing more
+    for k in (1, 2):
+        add("in-flight-allow-failure-%d" % k, [task(r, ["30", "30", "0.1"], allow=True) for r in range(k)],
+            [{"op": "cancel", "after_ms": 400}, {"op": "par", "tasks": list(range(k))}])
+    add("pipeline-allow-failure", [task(0, ["30", "0.1"], allow=True), task(1, ["0.05"])],
+        [{"op": "cancel", "after_ms": 400}, {"op": "pipeline", "stages": [{"task": 0, "deps": []}, {"task": 1, "deps": [0]}]}])
     # tasks that declare a timeout (far away): Cancel must interrupt them all the same
     for k in (1, 3):
         add("in-flight-with-timeout-%d" % k, [task(r, ["30", "30"], timeout_ms=25000) for r in range(k)],
